@@ -573,6 +573,125 @@ theorem pinned_client_ip_stripped_counterexample :
   | robots => rw [hr] at hw; simp [connIPOf] at hw
   | err500 => rw [hr] at hw; simp [connIPOf] at hw
 
+/-! ### requests in flight together (schedules of `Rewrite` and `send` events) -/
+
+/-- every entry is the outgoing request of its own client request. -/
+def FlightOK (e : Env) (reqs : List Req) (l : List (Nat × Out)) : Prop :=
+  ∀ io ∈ l, ∃ r, reqs[io.1]? = some r ∧ outOf e r = some io.2
+
+theorem stepFlight_ok {e : Env} {reqs : List Req} {s : Flight} (ev : Ev)
+    (hw : FlightOK e reqs s.waiting) (hl : FlightOK e reqs s.log) :
+    FlightOK e reqs (stepFlight .none e reqs s ev).waiting ∧ FlightOK e reqs (stepFlight .none e reqs s ev).log := by
+  cases ev with
+  | rewrite i =>
+    cases hr : reqs[i]? with
+    | none => simp only [stepFlight, hr]; exact ⟨hw, hl⟩
+    | some r =>
+      cases ho : outOf e r with
+      | none => simp only [stepFlight, hr, ho]; exact ⟨hw, hl⟩
+      | some o =>
+        simp only [stepFlight, hr, ho]
+        refine ⟨?_, hl⟩
+        intro io hio
+        rcases List.mem_append.mp hio with h | h
+        · exact hw io h
+        · have : io = (i, o) := by simpa using h
+          subst this
+          exact ⟨r, hr, ho⟩
+  | send i =>
+    cases hf : s.waiting.find? (fun io => io.1 == i) with
+    | none => simp only [stepFlight, hf]; exact ⟨hw, hl⟩
+    | some io =>
+      simp only [stepFlight, hf]
+      refine ⟨fun x hx => hw x (List.mem_of_mem_eraseP hx), ?_⟩
+      intro x hx
+      rcases List.mem_append.mp hx with h | h
+      · exact hl x h
+      · have hmem : io ∈ s.waiting := List.mem_of_find?_eq_some hf
+        have hi : (io.1 == i) = true := by simpa using List.find?_some hf
+        obtain ⟨r, hr, ho⟩ := hw io hmem
+        have hx' : x = (i, io.2) := by simpa [Sharing.none] using h
+        subst hx'
+        have : io.1 = i := by simpa using hi
+        exact ⟨r, this ▸ hr, ho⟩
+
+theorem foldl_stepFlight_ok {e : Env} {reqs : List Req} (evs : List Ev) :
+    ∀ s : Flight, FlightOK e reqs s.waiting → FlightOK e reqs s.log →
+      FlightOK e reqs (evs.foldl (stepFlight .none e reqs) s).log := by
+  induction evs with
+  | nil => intro s _ hl; exact hl
+  | cons ev evs ih =>
+    intro s hw hl
+    obtain ⟨h1, h2⟩ := stepFlight_ok ev hw hl
+    exact ih _ h1 h2
+
+/-- **No request in flight influences another**: under every schedule of `Rewrite` and `send` events
+over any list of client requests, every request the backend receives is, method, path and headers,
+what the handler produces for the one client request that caused it. -/
+theorem flights_independent (e : Env) (reqs : List Req) (evs : List Ev) :
+    ∀ io ∈ (runFlight .none e reqs evs).log,
+      ∃ r, reqs[io.1]? = some r ∧ io.2.method = r.method ∧ serve e r = .proxied io.2.path io.2.hdrs := by
+  intro io hio
+  have h := foldl_stepFlight_ok (e := e) (reqs := reqs) evs Flight.init
+    (by intro x hx; simp [Flight.init] at hx) (by intro x hx; simp [Flight.init] at hx)
+  obtain ⟨r, hr, ho⟩ := h io hio
+  refine ⟨r, hr, ?_⟩
+  unfold outOf at ho
+  split at ho
+  · next p hd hs =>
+    have : io.2 = { method := r.method, path := p, hdrs := hd } := by simpa using ho.symm
+    rw [this]
+    exact ⟨rfl, hs⟩
+  · exact absurd ho (by simp)
+
+/-- **C19 for requests in flight together**: whatever the interleaving, the backend is contacted
+only with a documented method and path shape of the client request that caused the contact, under
+the prefix after normalisation, with that client's peer address and without forwarding headers. -/
+theorem interleaved_forwards_only_api_with_real_address (e : Env) (reqs : List Req) (evs : List Ev) :
+    ∀ io ∈ (runFlight .none e reqs evs).log,
+      ∃ r, reqs[io.1]? = some r ∧ io.2.method = r.method ∧
+        Shape io.2.method (trimSlash r.path) ∧
+        (∃ rel, io.2.path = stripEnd e.base ++ rel ∧ normalize rel = rel ∧ underPrefix rel = true) ∧
+        (∃ ip, splitHost r.remote = some ip ∧ vals hXConnectingIP io.2.hdrs = [ip]) ∧
+        (∀ n ∈ forwardingNames, vals n io.2.hdrs = []) := by
+  intro io hio
+  obtain ⟨r, hr, hm, hs⟩ := flights_independent e reqs evs io hio
+  obtain ⟨h1, h2, h3, h4⟩ := forwards_only_api_with_real_address hs
+  exact ⟨r, hr, hm, hm ▸ h1, h2, h3, h4⟩
+
+/-- Two clients: `GET /linkip/a/b/status` from 1.2.3.4 and `POST /ddns/c/d/e` from 6.7.8.9. -/
+def flReqs : List Req :=
+  [{ method := mGET, path := "/linkip/a/b/status".toList, remote := "1.2.3.4:5".toList, hdrs := [] },
+   { method := mPOST, path := "/ddns/c/d/e".toList, remote := "6.7.8.9:5".toList, hdrs := [] }]
+
+/-- The second request runs `Rewrite` while the first one waits for its backend connection. -/
+def flSched : List Ev := [.rewrite 0, .rewrite 1, .send 0, .send 1]
+
+/-- the backend request has a documented shape (decidable form, base path empty). -/
+def apiShaped (io : Nat × Out) : Bool := shouldProxy io.2.method io.2.path
+
+/-- the backend request carries the peer address of the request that caused it. -/
+def ownAddr (reqs : List Req) (io : Nat × Out) : Bool :=
+  match reqs[io.1]? with
+  | some r =>
+    match splitHost r.remote with
+    | some ip => vals hXConnectingIP io.2.hdrs == [ip]
+    | none => false
+  | none => false
+
+/-- A `Rewrite` that writes the path into the one target URL object and points the outgoing request
+at it (instead of `SetURL`, which copies) sends `GET /ddns/c/d/e`: not a documented request, and the
+address of the first client is attached to the device of the second. -/
+theorem shared_url_mixes_counterexample :
+    ¬ (∀ e reqs evs, (runFlight { url := true, hdr := false } e reqs evs).log.all apiShaped = true) :=
+  fun h => absurd (h cxEnv flReqs flSched) (by decide)
+
+/-- A `Rewrite` that hands one header map to every outgoing request sends the first client's path
+with the second client's address. -/
+theorem shared_header_mixes_counterexample :
+    ¬ (∀ e reqs evs, (runFlight { url := false, hdr := true } e reqs evs).log.all (ownAddr reqs) = true) :=
+  fun h => absurd (h cxEnv flReqs flSched) (by decide)
+
 /-! ### non-vacuity -/
 
 -- the four documented requests are accepted …
@@ -630,6 +749,16 @@ example : idOf (serve cxEnv { cxReq with hdrs := (hXConnectingIP, ['6']) :: (hXR
       (hXForwardedFor, ['6']) :: (hCFConnectingIP, ['6']) :: cxReq.hdrs })
     = some [[['1', '.', '2', '.', '3', '.', '4']], [], [], [], [], [], [], []] := by decide
 
+-- requests in flight together: the schedule of the counter-examples delivers both requests, and the
+-- code as it is (nothing shared) sends each with its own method, path and address.
+example : ((runFlight .none cxEnv flReqs flSched).log.map (·.1)) = [0, 1] := by decide
+example : (runFlight .none cxEnv flReqs flSched).log.all apiShaped = true := by decide
+example : (runFlight .none cxEnv flReqs flSched).log.all (ownAddr flReqs) = true := by decide
+example : ((runFlight .none cxEnv flReqs flSched).log.map (·.2.path)) =
+    ["/linkip/a/b/status".toList, "/ddns/c/d/e".toList] := by decide
+example : ((runFlight { url := true, hdr := false } cxEnv flReqs flSched).log.map (fun io => (io.2.method, io.2.path))) =
+    [(mGET, "/ddns/c/d/e".toList), (mPOST, "/ddns/c/d/e".toList)] := by decide
+
 end Agd.LinkIP
 
 #print axioms Agd.LinkIP.shouldProxy_iff
@@ -663,3 +792,9 @@ end Agd.LinkIP
 #print axioms Agd.LinkIP.backend_path_normalised
 #print axioms Agd.LinkIP.wire_segments_dot_free
 #print axioms Agd.LinkIP.wire_forwards_only_api_with_real_address
+#print axioms Agd.LinkIP.stepFlight_ok
+#print axioms Agd.LinkIP.foldl_stepFlight_ok
+#print axioms Agd.LinkIP.flights_independent
+#print axioms Agd.LinkIP.interleaved_forwards_only_api_with_real_address
+#print axioms Agd.LinkIP.shared_url_mixes_counterexample
+#print axioms Agd.LinkIP.shared_header_mixes_counterexample
